@@ -23,6 +23,10 @@ N499 == N(FALSE, <<4,9,9>>)   N500 == N(FALSE, <<5,0,0>>)   N1400 == N(FALSE, <<
 MaxI32 == N(FALSE, <<2,1,4,7,4,8,3,6,4,7>>)      \* 2^31-1
 OverI32 == N(FALSE, <<2,1,4,7,4,8,3,6,4,8>>)     \* 2^31
 Huge == N(FALSE, <<9,9,9,9,9,9,9,9,9,9,9>>)
+\* a decimal string no machine integer holds (20 digits): necessarily out of range of every field - refused, never replaced
+Giant == N(FALSE, <<9,9,9,9,9,9,9,9,9,9,9,9,9,9,9,9,9,9,9,9>>)
+MaxI64 == N(FALSE, <<9,2,2,3,3,7,2,0,3,6,8,5,4,7,7,5,8,0,7>>)
+MinI64 == N(TRUE, <<9,2,2,3,3,7,2,0,3,6,8,5,4,7,7,5,8,0,8>>)
 
 LeqNN(a, b) == \/ Len(a) < Len(b)
                \/ /\ Len(a) = Len(b)
@@ -49,7 +53,7 @@ Ok(v) == [st |-> "ok", v |-> v]    Refuse == [st |-> "refuse", v |-> Zero]    Ei
 \* a numeric field: required?, default, predicate on the value
 Num(f, required, def, InRange(_)) ==
     CASE f.kind = "missing" -> IF required THEN Refuse ELSE Ok(def)
-      [] f.kind \in {"int", "str"} -> IF InRange(f.num) THEN Ok(f.num) ELSE Refuse    \* exactly the stated value, or refused
+      [] f.kind \in {"int", "str"} -> IF Between(f.num, MinI64, MaxI64) /\ InRange(f.num) THEN Ok(f.num) ELSE Refuse    \* exactly the stated value, or refused
       [] f.kind = "float" -> IF InRange(f.num) THEN Either(f.num) ELSE Refuse         \* 5.0: not an integer nor a decimal string; never another value
       [] OTHER -> Refuse
 
@@ -113,8 +117,8 @@ InstallEval(i) == IF i.kind \in {"badstr", "list"} THEN [st |-> "refuse", b |-> 
 \* ---- entries -------------------------------------------------------------------------------------------------------
 MtuVals    == {Zero, N499, N500, N1400, N9001, MinusOne}
 MetricVals == {Zero, Five, MaxI32, OverI32, MinusOne, Huge}
-MtuForms    == Forms(MtuVals, N1400)
-MetricForms == Forms(MetricVals, Five)
+MtuForms    == Forms(MtuVals, N1400) \cup {F("str", Giant, "")}
+MetricForms == Forms(MetricVals, Five) \cup {F("str", Giant, "")}
 
 E(mtu, metric, via, route, install) == [shape |-> "map", mtu |-> mtu, metric |-> metric, via |-> via, route |-> route, install |-> install]
 BaseR == E(F("int", N1400, ""), Missing, V("missing", <<>>), R("pfx", P(4, 80, 4), ""), I("missing", TRUE))     \* a good tun.routes entry
